@@ -127,7 +127,7 @@ func newRuleFlagSet() *ruleFlagSet {
 	rule.flagSet.Var((*valueFilterList)(&rule.Filters), "F", "filter")
 	rule.flagSet.Var(&rule.Syscalls, "S", "syscall name, number, or 'all'")
 	rule.flagSet.Var(&rule.Permissions, "p", "access type - r=read, w=write, x=execute, a=attribute change")
-	rule.flagSet.StringVar(&rule.Path, "w", "", "path to watch, no wildcards")
+	rule.flagSet.Var(&pathFlag{path: &rule.Path}, "w", "path to watch, no wildcards")
 	rule.flagSet.Var(&rule.Key, "k", "key")
 
 	return rule
@@ -316,6 +316,9 @@ type addFlag struct {
 }
 
 func (f *addFlag) Set(value string) error {
+	if *f != (addFlag{}) {
+		return errors.New("a rule has a single list and action, but the flag was repeated")
+	}
 	parts := strings.Split(value, ",")
 	if len(parts) > 2 {
 		return fmt.Errorf("expected a list type and action but got '%v'", value)
@@ -343,6 +346,30 @@ func (f *addFlag) Set(value string) error {
 
 func (f *addFlag) String() string {
 	return fmt.Sprintf("%v,%v", f.List, f.Action)
+}
+
+// --- pathFlag ---
+
+// pathFlag is the flag type for the path of a file watch. A watch has a single
+// path so repeating the flag is an error.
+type pathFlag struct {
+	path *string
+	set  bool
+}
+
+func (f *pathFlag) Set(value string) error {
+	if f.set {
+		return fmt.Errorf("a file watch has a single path, but got '%v' and '%v'", *f.path, value)
+	}
+	*f.path, f.set = value, true
+	return nil
+}
+
+func (f *pathFlag) String() string {
+	if f == nil || f.path == nil {
+		return ""
+	}
+	return *f.path
 }
 
 // --- fileAccessTypeFlags ---
